@@ -10,6 +10,7 @@ MODULES = {
     "C20": "check_c20", "C17": "check_c17",
     "C07": "check_c07", "C16": "check_c16", "C15": "check_c15", "C12": "check_c12",
     "C05": "check_est", "C06": "check_est",
+    "C08": "check_wp", "C09": "check_wp", "C10": "check_wp", "C11": "check_wp",
     "C13": "check_interp", "C14": "check_interp",
     "C01": "check_spectral", "C02": "check_spectral", "C03": "check_spectral", "C04": "check_spectral",
 }
